@@ -283,6 +283,7 @@ func c17TwinMain() {
 	}
 	lvl := job.Setting.Level
 	c17Perturb(lvl, os.Getpid()%97+1) // unrelated work BEFORE any seeding
+	c17LibraryWork(lvl, os.Getpid()%97+1)
 	out := json.NewEncoder(os.Stdout)
 	for i, rm := range job.Inputs {
 		var in epochInput
@@ -312,6 +313,11 @@ func c17TwinMain() {
 			os.Exit(5)
 		}
 		c17Perturb(1, i+lvl) // more unrelated work between histories
+		if lvl >= 3 && i%8 == 0 {
+			c17LibraryWork(lvl, i) // incl. a failing parallel epoch right before the next seeded history
+		} else {
+			c17LibraryWork(1, i)
+		}
 		if len(c17Keep) > 150000 {
 			c17Keep = nil
 		}
@@ -467,6 +473,7 @@ func c17Check(r *Run, ins []*epochInput, chunk int) []c17Trace {
 				in.Opts = &o
 			}
 		}
+		c17LibraryWork(1, i)
 		p2[i] = c17RunPlain(&in, nil)
 		used = in.Opts
 	}
@@ -580,7 +587,13 @@ func runC17(r *Run) error {
 	for i := 0; i < r.N(10, 120); i++ {
 		in := newEpochInput(r, "C17", 20, 6, true)
 		starts := startGenomes()
-		if m := withModule(r.Rng, starts[r.Rng.Intn(len(starts))], true); m != nil {
+		m := withModule(r.Rng, starts[r.Rng.Intn(len(starts))], true)
+		if i%2 == 1 {
+			// a module output that no connection gene mentions: reaches a child only through the module bookkeeping
+			m = withLooseModule(r.Rng, starts[[]int{1, 3, 0}[i%3]])
+			in.Opts.MutateAddLinkProb = 0
+		}
+		if m != nil {
 			in.Start = genomeText(m)
 			in.Opts.MutateOnlyProb = 0.2
 			ins = append(ins, in)
